@@ -1,37 +1,57 @@
 """C12 - zero crossings and switched (per-half-cycle) peaks are exact."""
+import hashlib
 import itertools
+import math
 
 import numpy as np
 from hypothesis import strategies as st
 
+import eqsig
 from eqsig.fns import peaks_and_crossings as pc
 
 from pbt import gen
 from pbt.core import clause, enum_clause, HarnessError
 from pbt.ref import peaks as ref
+from pbt.ref import peaks_mid as pm
 
 PROPERTY = "C12"
 CLAUSES = []
 ASSUMPTIONS = [
-    "samples with |value| < 1e-100 are flushed to exactly 0 before the call (non-zero |values| and differences stay >= 1e-116): "
-    "the code multiplies neighbouring samples / successive differences and a product below 1e-308 underflows - an implicit "
-    "precondition no ground motion violates (DESIGN C12.2, as C11)",
+    "clauses exhaustive / random / tol / tol-exhaustive / mid-range*: samples with |value| < 1e-100 are flushed to exactly 0 before the "
+    "call (non-zero |values| and differences stay >= 1e-116) and |values| <= 1e100; the statement's 'every series' beyond that range "
+    "(values of 1e-160 .. 1e-200, where products of two samples underflow, and of 1e150 .. 1e305, where they overflow) is asserted by "
+    "the separate clause extreme-magnitudes with the same oracles and NO flush",
     "on the all-zero series (no excursion, no turning point) the switched peaks must be in-range and strictly ascending like for "
-    "every series; the library returns [0, 0] there (open known finding C12-KF2); non-zero constant series are asserted (one "
-    "excursion, reported at index 0); the tolerance clauses skip constant series for the switched peaks; crossings are asserted "
-    "on every series of length >= 1",
+    "every series; the library returns [0, 0] there (open known finding C12-KF2, matched by exactly that answer); non-zero constant "
+    "series are asserted (one excursion, reported at index 0); the tolerance clauses skip constant series for the switched peaks; "
+    "crossings are asserted on every series of length >= 1",
     "where the statement leaves a choice the check accepts every choice: an excursion that attains its largest |value| at several "
     "indices may report any of them, and a zero-valued first sample / final run may or may not be reported; the canonical "
     "reference (first index of the largest |value|, all zero-valued reported local peaks) is compared for equality only where no "
     "such freedom exists; the predicate must accept the canonical reference on every case, otherwise the oracle is broken "
-    "(harness error, exit 2)",
+    "(harness error, exit 2); the mid-range clauses use the vectorised twins (pbt/ref/peaks_mid.py, cross-checked at import)",
     "tolerance clauses are metamorphic against the library's own zero-tolerance result, as the statement is worded; tol = f * |a "
     "sample of the series| with f in {0.3, 1, 1.5} or f * (largest of the first 1-4 non-zero peaks) with f in {1, 1.25, 2, 8}; no rounding is involved in "
     "the comparison peak + tol*sign <= 0 (sign of a floating sum is exact), so there is no ambiguous band",
-    "tol < 0 must be rejected by get_zero_crossings_array_indices (any exception accepted); get_switched_peak_array_indices "
-    "documents a meaning for negative tol and is not called with one",
-    "known finding C12-KF1 (open): with tol > 0 an index absent from the zero-tolerance result is tolerated only if it precedes "
-    "the first reported local peak with |value| >= tol (the undocumented 'opening group'); matcher = kf1_matcher below",
+    "negative tolerances are not passed: the statement's quantifier is tol in {0, > 0}, and the docstrings give tol < 0 a meaning "
+    "('does not need to cross zero') that the pinned code does not implement (it raises); the earlier demand 'tol < 0 must raise' was "
+    "not in the statement and was removed",
+    "known finding C12-KF1 (open): with tol > 0 exactly ONE index absent from the zero-tolerance result is tolerated, and only when it "
+    "is the largest-|value| reported local peak of the opening group (the local peaks from the first non-zero-valued one up to, "
+    "excluding, the first one that lies at least tol beyond zero on the other side of the group's first peak) and that group's first "
+    "peak is smaller than tol; matcher = kf1_matcher below (narrowed after the audit: the recorded defect can produce nothing else)",
+    "reported indices must have an integer dtype: they are positions, and every caller in the repository indexes with them",
+    "the aliasing (caller edits the returned array in place) and input-unchanged assertions of earlier versions were removed: purity / "
+    "ownership of results is property C05's promise, not C12's",
+    "object-level wrappers get_zero_crossings_indices(asig) / get_switched_peak_indices(asig) are called with real eqsig.Signal / "
+    "eqsig.AccSignal objects and their DEFAULT arguments only (the statement: first zero of each run unless adjacent zeros are "
+    "requested - nothing is requested); the reference is computed from the values the object holds (asig.values); "
+    "get_switched_peak_indices is no longer called with a bare array (documented argument: an AccSignal)",
+    "narrow integer containers (int8 / int16 / int32 from gen.narrow_int: full range of the dtype, the most negative sample equal to the dtype's "
+    "minimum) are part of the random / tol / mid-range families; the oracle works at the exact float64 values of the counts; tolerances for them "
+    "are floats derived from those values",
+    "get_zero_and_peak_array_indices is not asserted: no sentence of the statement describes its result (and the pinned code raises "
+    "IndexError on about a quarter of ordinary series)",
 ]
 FLUSH = 1e-100
 KINDS = ["vals", "dyadic", "levels", "noise", "noise", "sines", "sines", "pulse", "step", "walk", "walk", "quake", "quake"]
@@ -46,12 +66,17 @@ def series(case):
     """Case -> (float64 array actually analysed, argument handed to the library)."""
     if "v" in case:  # enumerated / hand-written
         a = np.array(case["v"], dtype=float)
+        if case.get("dtype"):  # hand-written narrow-integer record: the container holds exactly these (integral) values
+            return a, np.array(case["v"], dtype=case["dtype"])
         return a, a.copy()
     if "exc" in case:  # structured excursions: [sign, [magnitudes...]] segments, sign 0 = run of zeros
         out = []
         for sg, mags in case["exc"]:
             out.extend([float(sg) * float(m) for m in mags])
         a = np.array(out, dtype=float) * 2.0 ** (-case.get("j", 0))
+        if case.get("narrow"):
+            arg, a = gen.narrow_int(a, case["narrow"])
+            return a, arg
         if case.get("as") == "list":
             return a, [float(x) for x in a]
         return a, a.copy()
@@ -74,7 +99,14 @@ def series(case):
         # geometric envelope over `dec` decades (free-vibration tail, tapered record): later half cycles are many orders
         # of magnitude below the first ones
         a = a * 10.0 ** (-dec * np.arange(len(a)) / max(1, len(a) - 1))
-    a = np.where(np.abs(a) < FLUSH, 0.0, a)
+    xm = case.get("xmag")
+    if xm is not None:
+        # clause extreme-magnitudes: the largest |value| is moved to (2^(xm-1), 2^xm] by an exact power-of-two factor; NO flush
+        peak = float(np.max(np.abs(a)))
+        if peak > 0:
+            a = np.ldexp(a, int(xm) - int(math.ceil(math.log2(peak))))  # exact; the factor itself may exceed 2^1023
+    else:
+        a = np.where(np.abs(a) < FLUSH, 0.0, a)
     if spec.get("as") == "int":
         peak = float(np.max(np.abs(a)))
         if 0 < peak < 8:
@@ -82,6 +114,11 @@ def series(case):
     if case.get("negzero") and spec.get("as") != "int":
         # IEEE negative zero is a valid exact zero (rounding of small negative values, a polarity flip, '-0.000' in a text file)
         a = np.where((a == 0) & (np.arange(len(a)) % 2 == case["negzero"] % 2), -0.0, a)
+    if case.get("narrow") and not spec.get("as"):
+        # 8 / 16 / 32-bit digitiser counts over the full range of the dtype, the most negative sample = the dtype's minimum
+        # (abs() and products of such samples do not exist in the dtype); the oracle works at the exact float64 values
+        arg, a = gen.narrow_int(a, case["narrow"])
+        return a, arg
     arg = gen.as_container(spec, a)
     a = np.array(arg, dtype=float)
     if isinstance(arg, np.ndarray):
@@ -102,6 +139,8 @@ def _exc_cases(draw):
     case = {"exc": segs, "j": draw(st.integers(-2, 6))}
     if draw(st.integers(0, 4)) == 0:
         case["as"] = "list"
+    elif draw(st.integers(0, 4)) == 0:
+        case["narrow"] = draw(st.sampled_from(gen.NARROW_DTYPES))
     return case
 
 
@@ -118,13 +157,19 @@ def _rec_cases(draw, max_n=5000):
         case["pow2"] = draw(st.sampled_from([-300, -200, -60, -30, 60, 200, 300]))
     elif draw(st.integers(0, 4)) == 0:
         case["decay"] = draw(st.integers(10, 60))
-    if draw(st.integers(0, 3)) == 0:
+    if draw(st.integers(0, 1)) == 0:
         case["negzero"] = draw(st.integers(1, 2))
+    if draw(st.integers(0, 4)) == 0:
+        case["narrow"] = draw(st.sampled_from(gen.NARROW_DTYPES))
+    if draw(st.integers(0, 2)) == 0:
+        # the object-level wrappers with a real Signal / AccSignal holding the series
+        case["obj"] = [draw(st.sampled_from(["AccSignal", "Signal", "AccSignal"])), draw(st.sampled_from(gen.REPO_DTS))]
     return case
 
 
 def _cases(max_n=5000):
-    return st.one_of(_rec_cases(max_n=max_n), _exc_cases())
+    # three record cases for two structured ones (the audit found records starved: 37 %)
+    return st.one_of(_rec_cases(max_n=max_n), _exc_cases(), _rec_cases(max_n=max_n), _exc_cases(), _rec_cases(max_n=max_n))
 
 
 def _classify(ctx, case, a):
@@ -139,8 +184,16 @@ def _classify(ctx, case, a):
             ctx.cls("coarse-grid")
         if case.get("pow2") and case["rec"].get("as") != "int":
             ctx.cls("rescaled")
+        elif case.get("decay") and case["rec"].get("as") != "int":
+            ctx.cls("decay")
+        if case.get("negzero") and case["rec"].get("as") != "int" and bool(np.any(np.signbit(a) & (a == 0))):
+            ctx.cls("negzero")
     elif "exc" in case:
         ctx.cls("kind=excursions")
+    if case.get("narrow") and not (case.get("rec") or {}).get("as"):
+        ctx.cls("narrow-int", "narrow=" + case["narrow"])
+        if bool(np.any(a == float(np.iinfo(case["narrow"]).min))):
+            ctx.cls("narrow-int-minimum")
     ctx.cls(gen.size_class(len(a)))
     ctx.cls("nonzero-start" if a[0] != 0 else "zero-start")
     if ref.is_constant(a):
@@ -201,13 +254,6 @@ def _check_crossings(ctx, a, arg, default_too=False):
         want = ref.zero_crossings(a, keep)
         if got != want:
             ctx.fail("zero crossings (keep_adj_zeros=%s): got %s, expected %s" % (keep, _sh(got), _sh(want)))
-        # the answer belongs to the caller: shifting it in place (e.g. to a window offset) must not influence later calls
-        if isinstance(raw, np.ndarray) and raw.flags.writeable and raw.size:
-            raw += 7
-            again = _ints(ctx, ctx.lib(pc.get_zero_crossings_array_indices, arg, keep_adj_zeros=keep), "crossings")
-            if again != want:
-                ctx.fail("zero crossings (keep_adj_zeros=%s) changed after the caller edited the previous result in place: "
-                         "got %s, expected %s" % (keep, _sh(again), _sh(want)))
     if default_too:
         got = _ints(ctx, ctx.lib(pc.get_zero_crossings_array_indices, arg), "crossings")
         want = ref.zero_crossings(a, False)
@@ -215,31 +261,60 @@ def _check_crossings(ctx, a, arg, default_too=False):
             ctx.fail("zero crossings (defaults): got %s, expected %s" % (_sh(got), _sh(want)))
 
 
-def _check_switched(ctx, a, arg):
-    raw = ctx.lib(pc.get_switched_peak_array_indices, arg)
-    got = _ints(ctx, raw, "switched peaks")
-    if isinstance(raw, np.ndarray) and raw.flags.writeable and raw.size:
-        raw += 7  # the answer belongs to the caller: editing it in place must not influence a later call
-        again = _ints(ctx, ctx.lib(pc.get_switched_peak_array_indices, arg), "switched peaks")
-        if again != got:
-            ctx.fail("switched peaks changed after the caller edited the previous result in place: %s then %s" % (_sh(got), _sh(again)))
-    v = a.tolist()
+def _judge_switched(ctx, v, got, what="switched peaks"):
+    """A reported answer against the statement's predicates and (where the statement leaves no choice) the canonical reference."""
     canon = ref.switched_peaks(v)
     msg = ref.switched_violation(v, got)
     if got == canon:
         if msg is not None:
             raise HarnessError("switched-peak predicate rejects the canonical reference %r (%s) for %r" % (canon, msg, v[:40]))
-        return got
+        return
     if ref.switched_violation(v, canon) is not None:
         raise HarnessError("switched-peak predicate rejects the canonical reference %r for %r" % (canon, v[:40]))
     if msg is not None:
-        ctx.fail("switched peaks: %s; got %s, canonical reference %s" % (msg, _sh(got), _sh(canon)))
+        ctx.fail("%s: %s; got %s, canonical reference %s" % (what, msg, _sh(got), _sh(canon)))
     tie, end_zero = ref.switched_freedom(v)
     if not (tie or end_zero):
         # the statement determines the answer uniquely here
-        ctx.fail("switched peaks: got %s, expected %s" % (_sh(got), _sh(canon)))
+        ctx.fail("%s: got %s, expected %s" % (what, _sh(got), _sh(canon)))
     ctx.cls("non-canonical-choice")
+
+
+def _check_switched(ctx, a, arg, explicit_zero=False):
+    got = _ints(ctx, ctx.lib(pc.get_switched_peak_array_indices, arg), "switched peaks")
+    v = a.tolist()
+    _judge_switched(ctx, v, got)
+    if explicit_zero:
+        # tol = 0.0 spelled out is the statement's zero-tolerance result as well (judged by the statement, not by equality with the default call)
+        t0 = _ints(ctx, ctx.lib(pc.get_switched_peak_array_indices, arg, tol=0.0), "switched peaks tol=0.0")
+        _judge_switched(ctx, v, t0, "switched peaks (tol=0.0)")
     return got
+
+
+def _signal(kind, arg, dt):
+    """A real eqsig object holding the series -> (object, float64 copy of the values it holds)."""
+    cls = eqsig.AccSignal if kind == "AccSignal" else eqsig.Signal
+    try:
+        sig = cls(arg, float(dt))
+        return sig, np.array(sig.values, dtype=float)
+    except Exception:  # noqa  (building / reading the object is not this property's promise: C04 / C05)
+        return None, None
+
+
+def _check_wrappers(ctx, kind, arg, dt):
+    """get_zero_crossings_indices(asig) and get_switched_peak_indices(asig), default arguments, real Signal / AccSignal."""
+    ctx.cls("wrapper=" + kind)
+    sig, held = _signal(kind, arg, dt)
+    if sig is None or held.ndim != 1 or len(held) < 1:
+        ctx.cls("wrapper-skipped")
+        return
+    got = _ints(ctx, ctx.lib(pc.get_zero_crossings_indices, sig), "get_zero_crossings_indices")
+    want = ref.zero_crossings(held, False)
+    if got != want:
+        ctx.fail("get_zero_crossings_indices(%s) (default arguments: adjacent zeros not requested): got %s, expected %s" % (kind, _sh(got), _sh(want)))
+    if np.any(held != 0):
+        got = _ints(ctx, ctx.lib(pc.get_switched_peak_indices, sig), "get_switched_peak_indices")
+        _judge_switched(ctx, held.tolist(), got, "get_switched_peak_indices(%s)" % kind)
 
 
 # ---------------------------------------------------------------------------
@@ -299,8 +374,8 @@ def _check_switched_all_zero(ctx, a, arg):
     ctx.check(all(0 <= i < len(a) for i in got), "switched peaks of the all-zero series outside the series: %s" % _sh(got))
     if all(x < y for x, y in zip(got, got[1:])):
         return
-    if ctx.kf("C12-KF2") and all(i == 0 for i in got):
-        return  # known finding: index 0 reported twice
+    if got == [0, 0] and ctx.kf("C12-KF2"):
+        return  # known finding: index 0 reported twice (exactly that answer)
     ctx.fail("switched peaks of the all-zero series are not strictly ascending: %s" % _sh(got))
 
 
@@ -309,26 +384,27 @@ def _check_switched_all_zero(ctx, a, arg):
 
 
 @clause(CLAUSES, "random", _cases(), quick=500, thorough=3000,
-        rule="records of all kinds (n 4..5000; ndarray / int / list), optionally shifted by a fraction of the peak (non-zero starts, "
-             "long one-signed stretches), rounded to a symmetric coarse grid (zero runs, ties) or rescaled by 2^k (|k| <= 300), plus structured series of 1-8 "
-             "excursions with 3-9 dyadic levels each and zero runs between; "
-             "non-trivial = some excursion's largest |value| is not at its first reported peak",
-        oracle="reference model for crossings (exact), statement predicates + canonical reference for switched peaks; "
-               "object-level wrappers agree with the array functions; input unchanged",
-        require={"nonzero-start": 0.40, "3+levels-excursion": 0.35, "zero-turning-point": 0.03, "n>512": 0.03, "rescaled": 0.02},
+        rule="records of all kinds (n 4..5000; ndarray / int / list / views; 60 % of the cases), optionally shifted by a fraction of the peak "
+             "(non-zero starts, long one-signed stretches), rounded to a symmetric coarse grid (zero runs, ties), rescaled by 2^k (|k| <= 300), "
+             "under a geometric envelope of 10-60 decades, with IEEE negative zeros; plus structured series of 1-8 "
+             "excursions with 3-9 dyadic levels each and zero runs between (40 %); a third of the record cases also through the object-level "
+             "wrappers with a real Signal / AccSignal; non-trivial = some excursion's largest |value| is not at its first reported peak",
+        oracle="reference model for crossings (exact; both keep_adj_zeros values and the default), statement predicates + canonical reference "
+               "for switched peaks (default and explicit tol=0.0); object-level wrappers with default arguments against the same oracles",
+        require={"nonzero-start": 0.40, "3+levels-excursion": 0.35, "zero-turning-point": 0.03, "n>512": 0.08, "rescaled": 0.03,
+                 "decay": 0.03, "negzero": 0.02, "wrapper=Signal": 0.03, "wrapper=AccSignal": 0.03, "wrapper&zero-run": 0.02,
+                 "narrow-int": 0.08, "narrow-int-minimum": 0.04},
         min_nontrivial=0.2)
 def random(case, ctx):
     a, arg = series(case)
     _classify(ctx, case, a)
-    before = np.array(arg, dtype=float).copy()
     _check_crossings(ctx, a, arg, default_too=True)
     if np.any(a != 0):
-        got = _check_switched(ctx, a, arg)
-        via = _ints(ctx, ctx.lib(pc.get_switched_peak_indices, arg), "get_switched_peak_indices")
-        ctx.check(via == got, "get_switched_peak_indices differs from the array function: %s vs %s" % (_sh(via), _sh(got)))
-        t0 = _ints(ctx, ctx.lib(pc.get_switched_peak_array_indices, arg, tol=0.0), "switched peaks tol=0.0")
-        ctx.check(t0 == got, "explicit tol=0.0 differs from the default: %s vs %s" % (_sh(t0), _sh(got)))
-    ctx.equal(np.array(arg, dtype=float), before, "input series after the calls")
+        _check_switched(ctx, a, arg, explicit_zero=True)
+    if case.get("obj"):
+        if "zero-run" in ctx.classes:
+            ctx.cls("wrapper&zero-run")
+        _check_wrappers(ctx, case["obj"][0], arg, case["obj"][1])
 
 
 # ---------------------------------------------------------------------------
@@ -336,15 +412,31 @@ def random(case, ctx):
 
 
 def kf1_matcher(a, tol, extras, local_peaks=None):
-    """C12-KF1 matcher: every index of result(tol) absent from result(0) precedes the first reported local peak
-    with |value| >= tol (the opening group of get_switched_peak_array_indices)."""
-    v = [float(x) for x in a]
-    first_big = len(v)
-    for i in (local_peaks if local_peaks is not None else ref.local_peaks(v)[0]):
-        if abs(v[i]) >= tol:
-            first_big = i
+    """C12-KF1 matcher, exactly the recorded defect: result(tol) holds ONE index absent from result(0), and it is the largest-|value|
+    (first of equals) reported local peak of the opening group - the reported local peaks from the first one on (the second one when
+    the series starts with a zero-valued peak, which closes a group of its own) up to, excluding, the first one that lies at least
+    tol beyond zero on the other side of the group's first peak - while that first peak is smaller than tol.  Later groups start at a
+    peak of magnitude >= tol and always report a zero-tolerance representative; an opening group that runs to the end of the series
+    reports the largest peak of all, which is one as well (DESIGN C12.F(b)).  Returns (match, index the defect may report or None)."""
+    lp = local_peaks if local_peaks is not None else pm.local_peaks(a)[0]
+    if len(extras) != 1 or len(lp) < 2:
+        return False, None
+    k0 = 0 if a[lp[0]] != 0 else 1
+    last = float(a[lp[k0]])
+    if not (0 < abs(last) < tol):
+        return False, None
+    best, best_abs = int(lp[k0]), abs(last)
+    closed = False
+    for k in range(k0 + 1, len(lp)):
+        c = float(a[lp[k]])
+        if (last > 0 and c <= -tol) or (last < 0 and c >= tol):
+            closed = True
             break
-    return all(i < first_big for i in extras), first_big
+        if abs(c) > best_abs:
+            best, best_abs = int(lp[k]), abs(c)
+    if not closed:
+        return False, None
+    return int(extras[0]) == best, best
 
 
 def _tol_of(case, a):
@@ -364,7 +456,8 @@ def _tol_of(case, a):
 
 @st.composite
 def _tol_cases(draw):
-    case = draw(_cases(max_n=2000))
+    case = draw(_cases(max_n=5000))
+    case.pop("obj", None)
     if draw(st.booleans()):
         case["tol"] = {"mode": "level", "f": draw(st.sampled_from([0.3, 1.0, 1.5])), "k": draw(st.integers(0, 4000))}
     else:
@@ -380,7 +473,7 @@ def _tol_base(ctx, a, arg):
     base["const"] = ref.is_constant(a)
     if not base["const"]:
         base["sw"] = _ints(ctx, ctx.lib(pc.get_switched_peak_array_indices, arg, tol=0.0), "switched peaks")
-        base["lp"] = ref.local_peaks(a.tolist())[0]
+        base["lp"] = pm.local_peaks(a)[0]
     return base
 
 
@@ -397,38 +490,43 @@ def _check_tol(ctx, a, arg, tol, base=None):
         if len(zt) < len(z0):
             pruned = True
             ctx.cls("zc-pruned")
-    ctx.raises(Exception, pc.get_zero_crossings_array_indices, arg, tol=-tol)
     if base["const"]:
         return pruned
     s0 = base["sw"]
     s_t = _ints(ctx, ctx.lib(pc.get_switched_peak_array_indices, arg, tol=tol), "switched peaks tol>0")
-    for a_, b_ in zip(s_t[:-1], s_t[1:]):
-        if not a_ < b_:
-            ctx.fail("switched peaks with tol=%r not strictly ascending: %s" % (tol, _sh(s_t)))
-    if len(s_t) < len(s0):
+    if _judge_tol_switched(ctx, a, tol, s_t, s0, base["lp"]):
         pruned = True
-        ctx.cls("sw-pruned")
-    in0 = set(s0)
-    extras = [i for i in s_t if i not in in0]
-    if extras:
-        match, first_big = kf1_matcher(a, tol, extras, base["lp"])
-        if match and ctx.kf("C12-KF1"):
-            # relaxed bound: the extras must still be reported local peaks; everything from the first big peak on is strict
-            ctx.cls("kf1-match")
-            lp = set(base["lp"])
-            ctx.check(all(i in lp for i in extras), "switched peaks with tol=%r: extra indices %s are not local peaks" % (tol, _sh(extras)))
-        else:
-            ctx.fail("switched peaks with tol=%r: %s is not a subsequence of the zero-tolerance result %s (extra %s; first local "
-                     "peak with |value| >= tol at %s)" % (tol, _sh(s_t), _sh(s0), _sh(extras), first_big if first_big < len(a) else None))
     return pruned
 
 
+def _judge_tol_switched(ctx, a, tol, s_t, s0, lp):
+    """result(tol) of the switched peaks is a subsequence of result(0) (both lists of ints); True when something was removed."""
+    for a_, b_ in zip(s_t[:-1], s_t[1:]):
+        if not a_ < b_:
+            ctx.fail("switched peaks with tol=%r not strictly ascending: %s" % (tol, _sh(s_t)))
+    in0 = set(s0)
+    extras = [i for i in s_t if i not in in0]
+    if extras:
+        match, allowed = kf1_matcher(a, tol, extras, lp)
+        if match and ctx.kf("C12-KF1"):
+            ctx.cls("kf1-match")    # exactly the recorded defect: the one extra index is the opening group's largest local peak
+        else:
+            ctx.fail("switched peaks with tol=%r: %s is not a subsequence of the zero-tolerance result %s (extra %s; the open finding "
+                     "C12-KF1 could only explain the single extra index %s)" % (tol, _sh(s_t), _sh(s0), _sh(extras), allowed))
+    if not ref.is_subsequence([i for i in s_t if i in in0], s0):
+        ctx.fail("switched peaks with tol=%r: %s is not a subsequence of the zero-tolerance result %s" % (tol, _sh(s_t), _sh(s0)))
+    if len(s_t) < len(s0):
+        ctx.cls("sw-pruned")
+        return True
+    return False
+
+
 @clause(CLAUSES, "tol", _tol_cases(), quick=400, thorough=2500,
-        rule="same series generator (n <= 2000); tol = f*|a sample| with f in {0.3, 1, 1.5}, or f*(largest of the first 1-4 "
+        rule="same series generator (n <= 5000); tol = f*|a sample| with f in {0.3, 1, 1.5}, or f*(largest of the first 1-4 "
              "non-zero peaks) with f in {1, 1.25, 2, 8} (tol larger than the first peaks); non-trivial = the tolerance removes something",
         oracle="metamorphic: result(tol) is a subsequence of result(0) for crossings (both keep_adj_zeros modes) and switched "
-               "peaks; tol < 0 rejected by the crossings function; C12-KF1 routes extras that precede the first peak >= tol",
-        require={"tol>first-peak": 0.2, "sw-pruned": 0.2, "zc-pruned": 0.1, "nonzero-start": 0.3},
+               "peaks; C12-KF1 routes exactly one extra index, the largest local peak of the opening group",
+        require={"tol>first-peak": 0.2, "sw-pruned": 0.2, "zc-pruned": 0.1, "nonzero-start": 0.3, "n>512": 0.08, "narrow-int": 0.08},
         min_nontrivial=0.2)
 def tol(case, ctx):
     a, arg = series(case)
@@ -470,3 +568,461 @@ def tol_exhaustive(case, ctx):
         if _check_tol(ctx, a, arg, t, base):
             pruned = True
     ctx.nt(pruned)
+
+
+# ---------------------------------------------------------------------------
+# 4. mid-range sizes (DESIGN 8.5): series of 2e3 .. 3e5 samples (thorough 2e6).  Deterministic enumerations: lengths from
+# gen.size_ladder (one per logarithmic bin, placed by a hash of VERIF_SEED, plus lengths aimed at the integer literals mined from the
+# source under test); every other parameter is a hash of (VERIF_SEED, tag, index).  The WHOLE output of every function is compared
+# with the vectorised reference / predicate of pbt/ref/peaks_mid.py.
+
+
+def _hu(*parts):
+    """Uniform number in [0, 1): hash of (VERIF_SEED, parts)."""
+    s = ":".join(str(p) for p in (gen.run_seed(), "c12") + parts)
+    return (int(hashlib.blake2b(s.encode(), digest_size=8).hexdigest(), 16) % 10 ** 9) / 1e9
+
+
+def _pick(seq, *parts):
+    return seq[min(len(seq) - 1, int(_hu(*parts) * len(seq)))]
+
+
+def _logu(lo, hi, *parts):
+    return float(math.exp(math.log(lo) + (math.log(hi) - math.log(lo)) * _hu(*parts)))
+
+
+def _sd(*parts):
+    return int(_hu("seed", *parts) * (2 ** 31 - 1))
+
+
+MR_KINDS = ("noise", "grid-noise", "smooth", "grid-smooth", "band", "rectified", "decay")
+MR_STARTS = ("zero", "offset", "lead")
+
+
+def _mr_series(c):
+    """Series of a mid-range case (pure function of the case).  Ordinary data that keep an error visible everywhere: noise /
+    band-limited noise / modulated sines times a slowly varying envelope plus a small non-zero mean (every stretch differs; many
+    local peaks per excursion), optionally rounded to a symmetric grid containing 0 (zero runs, zero-valued turning points, ties),
+    rectified (one-signed, touching 0), under a geometric envelope of many decades; exact zeros and short zero runs sprinkled in;
+    the first sample is 0 / ordinary / the largest value of its excursion; leading / trailing zero runs."""
+    n = int(c["n"])
+    rs = np.random.RandomState(int(c["seed"]))
+    t = np.arange(n, dtype=float)
+    kind = c["kind"]
+    if kind in ("noise", "grid-noise"):
+        a = rs.standard_normal(n)
+    elif kind == "band":
+        w = int(c["w"])
+        w2 = w // 2 + 1
+        cs = np.cumsum(rs.standard_normal(n + w + w2))
+        a = (cs[w:] - cs[:-w]) / math.sqrt(w)
+        cs = np.cumsum(a)
+        a = (cs[w2:] - cs[:-w2]) / math.sqrt(w2)
+    else:
+        cyc = float(c["cyc"])
+        ph = rs.uniform(0, 2 * math.pi, 4)
+        a = (np.sin(2 * math.pi * cyc * t / n + ph[0]) * (1 + 0.4 * np.sin(2 * math.pi * 3.3 * t / n + ph[1]))
+             + 0.3 * np.sin(2 * math.pi * 0.377 * cyc * t / n + ph[2]) + 0.08 * np.sin(2 * math.pi * 7.1 * cyc * t / n + ph[3]))
+    x = t / n
+    e = {"up": 0.6 + 0.8 * x, "down": 1.4 - 0.8 * x, "hump": 0.6 + 0.8 * np.sin(math.pi * x)}[c.get("env", "up")]
+    a = a[:n] * e + float(c.get("mean", 0.11))
+    if kind == "decay":
+        a = a * 10.0 ** (-float(c["decades"]) * x)
+    q = float(c.get("grid", 0))
+    if q:
+        a = np.round(a / q) * q
+    if kind == "rectified":
+        a = np.abs(a) * float(c.get("side", 1.0))
+    nz = int(c.get("zeros", 0))
+    if nz:
+        at = rs.randint(1, n - 4, nz)
+        for r in range(int(c.get("zero_run", 1))):
+            a[at + r] = 0.0
+    start = c.get("start", "offset")
+    if start == "zero":
+        a[0] = 0.0
+    elif start == "lead":
+        # the series starts AT the largest value of its first excursion
+        sg = (1.0 if a[1] > 0 else -1.0) if a[1] != 0 else 1.0
+        other = np.flatnonzero((a[1:] > 0) != (sg > 0)) if sg > 0 else np.flatnonzero((a[1:] < 0) != (sg < 0))
+        k = int(other[0]) + 1 if len(other) else n
+        a[0] = sg * 1.25 * max(float(np.max(np.abs(a[1:k + 1]))), 1e-3)
+    elif a[0] == 0:
+        a[0] = 0.11
+    lead0 = int(c.get("lead0", 0))
+    if lead0:
+        a[:lead0] = 0.0
+    trail0 = int(c.get("trail0", 0))
+    if trail0:
+        a[n - trail0:] = 0.0
+    a = a * 2.0 ** int(c.get("unit", 0))
+    a = np.where(np.abs(a) < FLUSH, 0.0, a)
+    if c.get("negzero"):
+        a = np.where((a == 0) & (np.arange(n) % 2 == int(c["negzero"]) % 2), -0.0, a)
+    if not np.any(a != 0):
+        a[n // 2] = 2.0 ** int(c.get("unit", 0))
+    return np.ascontiguousarray(a)
+
+
+def _mr_container(a, how):
+    """(argument handed to the library, the float64 values it represents)."""
+    if how == "int":
+        k = 30 - int(math.ceil(math.log2(float(np.max(np.abs(a))))))
+        ai = np.round(a * 2.0 ** k).astype(np.int64)
+        if not np.any(ai != 0):
+            ai[len(ai) // 2] = 1
+        return ai, ai.astype(float)
+    if how in gen.NARROW_DTYPES:
+        ai, av = gen.narrow_int(a, how)
+        if not np.any(av != 0):
+            ai[len(ai) // 2] = 1
+            av = ai.astype(float)
+        return ai, av
+    if how == "list":
+        return [float(v) for v in a], a
+    if how in ("view", "negstride", "readonly"):
+        return gen.as_container({"as": how}, a), a
+    return a.copy(), a
+
+
+def _mr_params(kind, n, tol_case, *parts):
+    """Hash-chosen parameters of a family.  tol_case: the library's pruning loop for tol > 0 is quadratic in the number of zero
+    crossings (a list membership test per crossing), so series of the tolerance enumeration hold at most ~6000 crossings."""
+    c = {"kind": kind, "env": _pick(["up", "down", "hump"], "env", *parts)}
+    if kind == "band":
+        lo = max(4, n // 1500) if tol_case else 4
+        c["w"] = int(_logu(lo, max(lo + 1, 120 if not tol_case else 2 * lo + 8), "w", *parts))
+    if kind in ("smooth", "grid-smooth", "rectified", "decay"):
+        c["cyc"] = round(_logu(3, max(10, min(1200 if tol_case else 3000, n / 40.0)), "cyc", *parts), 3)
+    if kind == "grid-noise":
+        c["grid"] = _pick([1.0, 0.5, 0.25], "grid", *parts)
+    if kind == "grid-smooth":
+        c["grid"] = _pick([0.25, 2.0 ** -4, 2.0 ** -7], "grid", *parts)
+    if kind == "rectified":
+        c["grid"] = _pick([0, 2.0 ** -3, 2.0 ** -6], "grid", *parts)
+        c["side"] = _pick([1.0, -1.0], "side", *parts)
+        c["mean"] = 0.0
+    if kind == "decay":
+        c["decades"] = int(_logu(8, 60, "dec", *parts))
+    c["mean"] = c.get("mean", _pick([0.11, -0.07, 0.3, 0.0], "mean", *parts))
+    if _hu("zeros", *parts) < 0.6:
+        c["zeros"] = int(_logu(1, 400 if tol_case else max(2, n // 150), "nz", *parts))
+        c["zero_run"] = int(_pick([1, 1, 2, 3], "zr", *parts))
+    u = _hu("lead0", *parts)
+    if u < 0.35:
+        c["lead0"] = int(_pick([1, 2, 3], "l0", *parts)) if u < 0.15 else int(_logu(4, 800 if tol_case else max(5, n // 3), "l0", *parts))
+    u = _hu("trail0", *parts)
+    if u < 0.25:
+        c["trail0"] = int(_pick([1, 2, 3], "t0", *parts)) if u < 0.12 else int(_logu(4, 800 if tol_case else max(5, n // 4), "t0", *parts))
+    c["unit"] = _pick([0, 0, 0, -7, 5, -40, 33], "unit", *parts)
+    c["container"] = _pick(["ndarray", "ndarray", "ndarray", "list", "int", "readonly", "negstride", "view", "int16", "int32", "int8", "int16"],
+                           "cont", *parts)
+    if kind == "decay" and c["container"] in ("int",) + tuple(gen.NARROW_DTYPES):
+        c["container"] = "ndarray"      # integer counts would round the decayed tail to one long zero run
+    if _hu("nzero", *parts) < 0.25 and c["container"] not in ("int",) + tuple(gen.NARROW_DTYPES):
+        c["negzero"] = int(_pick([1, 2], "nzp", *parts))
+    return c
+
+
+def _mid_sizes(tier, tag):
+    """The last rung is an anchor just above the nominal end of the range: a window that opens anywhere below the end is entered
+    by at least one series."""
+    if tier == "quick":
+        top = int(300000 * (1 + 0.1 * _hu("top", tag)))
+        return sorted(set(gen.size_ladder(2000, 300000, 14, "c12:n" + tag)) | {top})
+    top = int(2000000 * (1 + 0.05 * _hu("top:t", tag)))
+    return sorted(set(gen.size_ladder(2000, 2000000, 30, "c12:n:t" + tag, mined_limit=16)) | set(gen.ladder(2000, 300000, 14, "c12:n" + tag)) | {top})
+
+
+# micro-seconds per sample of one case (the library walks over the local peaks in Python)
+_COST = {"smooth": 0.15, "grid-smooth": 0.2, "rectified": 0.2, "decay": 0.2, "band": 0.7, "noise": 2.2, "grid-noise": 1.8}
+
+
+def _mid_cases(tier):
+    cases = []
+    for i, n in enumerate(_mid_sizes(tier, "")):
+        # every length: the peak-dense and the zero-rich family always, two of the other five by hash; the first-sample mode rotates
+        others = [k for k in MR_KINDS if k not in ("noise", "grid-noise")]
+        chosen = ["noise", "grid-noise"] + sorted(others, key=lambda k: _hu("kinds", i, k))[:2]
+        for r, kind in enumerate(chosen):
+            c = dict(n=int(n), seed=_sd("mid", i, kind), start=MR_STARTS[(i + r) % 3], cost=_COST[kind] * n, **_mr_params(kind, n, False, "mid", i, kind))
+            if (i + r) % 2 == 0:
+                c["obj"] = [_pick(["Signal", "AccSignal"], "objk", i, kind), _pick(gen.REPO_DTS, "objdt", i, kind)]
+            cases.append(c)
+    return cases
+
+
+def _deal(cases, shard, nshards):
+    """Costly cases first, then dealt round-robin: shards of equal weight."""
+    order = sorted(range(len(cases)), key=lambda i: (-cases[i].get("cost", 0), i))
+    for rank, i in enumerate(order):
+        if rank % nshards == shard:
+            yield cases[i]
+
+
+def _mid_enum(tier, shard, nshards):
+    return _deal(_mid_cases(tier), shard, nshards)
+
+
+def _ints_arr(ctx, out, what):
+    out = np.asarray(out)
+    if out.ndim != 1:
+        ctx.fail("%s: result is not one-dimensional: shape %s" % (what, out.shape))
+    if out.size and out.dtype.kind not in "iu":
+        ctx.fail("%s: indices have dtype %s" % (what, out.dtype))
+    return out.astype(np.int64)
+
+
+def _first_diff(got, want):
+    m = min(len(got), len(want))
+    bad = np.flatnonzero(got[:m] != want[:m])
+    k = int(bad[0]) if len(bad) else m
+    return "%d indices vs %d expected; first difference at position %d: got %s, expected %s" % (
+        len(got), len(want), k, _sh(got[k:k + 4].tolist()), _sh(want[k:k + 4].tolist()))
+
+
+def _crossings_fast(ctx, a, fn, arg, what, kws=((("keep_adj_zeros", False),), (("keep_adj_zeros", True),), ())):
+    for kw in kws:
+        kw = dict(kw)
+        got = _ints_arr(ctx, ctx.lib(fn, arg, **kw), what)
+        want = pm.zero_crossings(a, kw.get("keep_adj_zeros", False))
+        if not np.array_equal(got, want):
+            ctx.fail("%s (%s): %s" % (what, ", ".join("%s=%s" % kv for kv in kw.items()) or "default arguments", _first_diff(got, want)))
+
+
+def _judge_switched_fast(ctx, a, got, what, canon_tie=None):
+    canon, tie = canon_tie if canon_tie is not None else pm.switched(a)
+    msg = pm.switched_violation(a, got)
+    if np.array_equal(got, canon):
+        if msg is not None:
+            raise HarnessError("vectorised switched-peak predicate rejects the canonical reference (%s), n=%d" % (msg, len(a)))
+        return
+    if pm.switched_violation(a, canon) is not None:
+        raise HarnessError("vectorised switched-peak predicate rejects the canonical reference, n=%d" % len(a))
+    if msg is not None:
+        ctx.fail("%s: %s; %s" % (what, msg, _first_diff(got, canon)))
+    if not (tie or a[0] == 0 or a[-1] == 0):
+        ctx.fail("%s: %s" % (what, _first_diff(got, canon)))
+    ctx.cls("non-canonical-choice")
+
+
+def _wrappers_fast(ctx, kind, arg, dt):
+    """Object-level wrappers (default arguments) with a real Signal / AccSignal, then the history variant: the same object is given
+    other values of the same length, first and last sample (interior reversed and negated around 0) and read again."""
+    ctx.cls("wrapper=" + kind)
+    sig, held = _signal(kind, arg, dt)
+    if sig is None or held.ndim != 1 or len(held) < 3:
+        ctx.cls("wrapper-skipped")
+        return
+    for step in ("fresh", "after reset_values"):
+        _crossings_fast(ctx, held, pc.get_zero_crossings_indices, sig, "get_zero_crossings_indices(%s) %s" % (kind, step), kws=((),))
+        got = _ints_arr(ctx, ctx.lib(pc.get_switched_peak_indices, sig), "get_switched_peak_indices")
+        _judge_switched_fast(ctx, held, got, "get_switched_peak_indices(%s) %s" % (kind, step))
+        if step == "fresh":
+            b = held.copy()
+            b[1:-1] = -held[1:-1][::-1]
+            try:
+                sig.reset_values(b)
+                held = np.array(sig.values, dtype=float)
+            except Exception:  # noqa  (not this property's promise)
+                return
+            if held.ndim != 1 or len(held) < 3 or not np.any(held != 0):
+                return
+            ctx.cls("wrapper-history")
+
+
+def _mid_classes(ctx, case, a):
+    n = len(a)
+    z = a == 0
+    ctx.cls("kind=" + case["kind"], "n>50000" if n > 50000 else "n<=50000", "container=" + case.get("container", "ndarray"),
+            "start=" + case.get("start", "offset"), "zero-run" if bool(np.any(z[1:] & z[:-1])) else None,
+            "long-zero-run" if max(case.get("lead0", 0), case.get("trail0", 0)) >= 8 else None,
+            "negzero" if case.get("negzero") else None,
+            "narrow-int" if case.get("container") in gen.NARROW_DTYPES else None)
+
+
+def _mid_check(ctx, case):
+    a0 = _mr_series(case)
+    arg, a = _mr_container(a0, case.get("container", "ndarray"))
+    _mid_classes(ctx, case, a)
+    _crossings_fast(ctx, a, pc.get_zero_crossings_array_indices, arg, "zero crossings")
+    canon, tie = pm.switched(a)
+    got = _ints_arr(ctx, ctx.lib(pc.get_switched_peak_array_indices, arg), "switched peaks")
+    _judge_switched_fast(ctx, a, got, "switched peaks", (canon, tie))
+    lp = pm.local_peaks(a)[0]
+    ctx.cls("tie" if tie else None, "zero-turning-point" if bool(np.any(a[lp[1:-1]] == 0)) else None,
+            "switched>%d" % (10 ** int(math.log10(max(1, len(canon))))))
+    # non-trivial: some excursion holds three or more reported local peaks (its largest is not simply the only one)
+    sg = (a > 0).astype(np.int8) - (a < 0).astype(np.int8)
+    rs = pm.run_starts(sg)
+    per_run = np.bincount(np.searchsorted(rs, lp, side="right") - 1, minlength=len(rs))
+    ctx.nt(bool(np.any((per_run >= 3) & (sg[rs] != 0))))
+    if case.get("obj"):
+        _wrappers_fast(ctx, case["obj"][0], arg, case["obj"][1])
+
+
+@enum_clause(CLAUSES, "mid-range", _mid_enum,
+             rule="series lengths gen.size_ladder(2000, 300000, 14) + an anchor just above 300 000 (thorough: to 2 000 000, 30 + 14 rungs; plus "
+                  "lengths aimed at the integer literals of the source) x four families per length (white noise, noise on a symmetric grid, two of "
+                  "{modulated sines, sines on a grid, band-limited noise, rectified one-signed wave, 8-60 decades of decay}); sprinkled exact zeros "
+                  "and zero runs, leading / trailing zero runs of 1..n/3 samples, negative zeros, first sample zero / ordinary / largest of its "
+                  "excursion (rotating), units 2^-40..2^33, ndarray / list / int64 / int8 / int16 / int32 (full range, most negative sample = the dtype's minimum) / read-only / strided "
+                  "containers by hash of (VERIF_SEED, index); every case calls the crossings with keep_adj_zeros in {False, True, default} and the switched peaks; half of the cases also the "
+                  "object-level wrappers with a real Signal / AccSignal, fresh and after reset_values; non-trivial = some excursion holds >= 3 reported local peaks",
+             oracle="reference model over the WHOLE output (vectorised references cross-checked against the loops at import): crossings exact index "
+                    "equality; switched peaks: the statement's predicates, and equality with the canonical reference where the statement leaves no choice",
+             exhaustive_note="deterministic size ladder: one series length per logarithmic bin of [2000, 300000] (thorough [2000, 2000000]) and per "
+                             "mined literal, four families each, keep_adj_zeros in {F, T, default}",
+             require={"kind=noise": 0.2, "kind=grid-noise": 0.2, "n>50000": 0.1, "zero-run": 0.3, "start=lead": 0.2, "wrapper-history": 0.2,
+                      "zero-turning-point": 0.1, "narrow-int": 0.1},
+             min_nontrivial=0.8, quick_shards=4)
+def mid_range(case, ctx):
+    _mid_check(ctx, case)
+
+
+# ---- mid-range, tolerance > 0 ---------------------------------------------------------------------------------------------
+
+TOL_KINDS = ("smooth", "band", "decay", "rectified", "noise")
+
+
+def _mid_tol_cases(tier):
+    cases = []
+    for i, n in enumerate(_mid_sizes(tier, ":tol")):
+        chosen = sorted(TOL_KINDS[:4], key=lambda k: _hu("tkinds", i, k)) + ["noise"]
+        for r, kind in enumerate(chosen):
+            m = int(n)
+            if kind == "noise":
+                m = int(_logu(2000, 9000, "noise-n", i))      # white noise: n/2 crossings (see _mr_params)
+            c = dict(n=m, seed=_sd("midtol", i, kind), start=MR_STARTS[(i + r + 1) % 3], cost=_COST[kind] * m + 2e4,
+                     **_mr_params(kind, m, True, "midtol", i, kind))
+            if _hu("tmode", i, kind) < 0.5:
+                c["tol"] = {"mode": "level", "f": _pick([0.3, 1.0, 1.5], "tf", i, kind), "q": round(_hu("tq", i, kind), 4)}
+            else:
+                c["tol"] = {"mode": "first", "f": _pick([1.0, 1.25, 2.0, 8.0], "tf", i, kind), "m": int(_pick([1, 2, 3, 4], "tm", i, kind))}
+            cases.append(c)
+    return cases
+
+
+def _mid_tol_enum(tier, shard, nshards):
+    return _deal(_mid_tol_cases(tier), shard, nshards)
+
+
+@enum_clause(CLAUSES, "mid-range-tol", _mid_tol_enum,
+             rule="series lengths gen.size_ladder(2000, 300000, 14) + an anchor (thorough to 2 000 000; own tag) x {modulated sines, "
+                  "band-limited noise, decay, rectified wave} at that length plus white noise of 2000..9000 samples (the library's pruning loop is "
+                  "quadratic in the number of crossings: every series holds <= ~6000 of them); tol = f*|value at a hash-chosen quantile of the "
+                  "non-zero samples| with f in {0.3, 1, 1.5}, or f*(largest of the first 1-4 non-zero peaks) with f in {1, 1.25, 2, 8}; "
+                  "non-trivial = the tolerance removes something",
+             oracle="metamorphic over the whole output: result(tol) is strictly ascending and every index of it belongs to result(0), for the "
+                    "crossings (keep_adj_zeros in {False, True}; result(0) itself equals the reference) and the switched peaks (result(0) itself "
+                    "satisfies the statement); C12-KF1 routes exactly one extra index, the largest local peak of the opening group",
+             exhaustive_note="deterministic size ladder (one length per logarithmic bin and per mined literal) x five families, one tolerance each",
+             require={"n>50000": 0.1, "tol-mode=level": 0.2, "tol-mode=first": 0.2, "zc-pruned": 0.3, "sw-pruned": 0.3, "narrow-int": 0.1},
+             min_nontrivial=0.5, quick_shards=4)
+def mid_range_tol(case, ctx):
+    a0 = _mr_series(case)
+    arg, a = _mr_container(a0, case.get("container", "ndarray"))
+    _mid_classes(ctx, case, a)
+    ts = case["tol"]
+    ctx.cls("tol-mode=" + ts["mode"])
+    lp = pm.local_peaks(a)[0]
+    if ts["mode"] == "level":
+        nzv = np.sort(np.abs(a[a != 0]))
+        base = float(nzv[min(len(nzv) - 1, int(ts["q"] * len(nzv)))])
+    else:
+        pv = np.abs(a[lp])
+        pv = pv[pv != 0][:ts["m"]]
+        base = float(np.max(pv)) if len(pv) else 1.0
+    tol = float(ts["f"]) * base
+    pruned = False
+    for keep in (False, True):
+        z0 = _ints_arr(ctx, ctx.lib(pc.get_zero_crossings_array_indices, arg, keep_adj_zeros=keep, tol=0.0), "crossings tol=0.0")
+        want = pm.zero_crossings(a, keep)
+        if not np.array_equal(z0, want):
+            ctx.fail("zero crossings (keep_adj_zeros=%s, tol=0.0): %s" % (keep, _first_diff(z0, want)))
+        if len(want) > 12000:
+            # guard: the pinned pruning loop is quadratic in the number of crossings (minutes beyond ~2e4); the generator aims at
+            # <= 6000, this only catches an unlucky draw
+            ctx.cls("too-many-crossings-skipped")
+            continue
+        zt = _ints_arr(ctx, ctx.lib(pc.get_zero_crossings_array_indices, arg, keep_adj_zeros=keep, tol=tol), "crossings tol>0")
+        if not pm.is_subsequence_sorted(zt, z0):
+            extra = zt[~np.isin(zt, z0)]
+            ctx.fail("crossings with tol=%r (keep_adj_zeros=%s): %d indices are not a subsequence of the %d zero-tolerance ones (not ascending, or "
+                     "foreign indices %s)" % (tol, keep, len(zt), len(z0), _sh(extra[:6].tolist())))
+        if len(zt) < len(z0):
+            pruned = True
+            ctx.cls("zc-pruned")
+    s0 = _ints_arr(ctx, ctx.lib(pc.get_switched_peak_array_indices, arg, tol=0.0), "switched peaks tol=0.0")
+    _judge_switched_fast(ctx, a, s0, "switched peaks (tol=0.0)")
+    s_t = _ints_arr(ctx, ctx.lib(pc.get_switched_peak_array_indices, arg, tol=tol), "switched peaks tol>0")
+    if np.any(np.diff(s_t) <= 0):
+        ctx.fail("switched peaks with tol=%r not strictly ascending" % tol)
+    extras = s_t[~np.isin(s_t, s0)]
+    if len(extras):
+        match, allowed = kf1_matcher(a, tol, extras.tolist(), lp)
+        if match and ctx.kf("C12-KF1"):
+            ctx.cls("kf1-match")
+        else:
+            ctx.fail("switched peaks with tol=%r: %d indices, %d of them absent from the zero-tolerance result: %s (the open finding C12-KF1 "
+                     "could only explain the single extra index %s)" % (tol, len(s_t), len(extras), _sh(extras[:6].tolist()), allowed))
+    if len(s_t) < len(s0):
+        pruned = True
+        ctx.cls("sw-pruned")
+    ctx.nt(pruned)
+
+
+# ---------------------------------------------------------------------------
+# 5. extreme magnitudes: the statement says "for every series"
+
+
+@st.composite
+def _extreme_cases(draw):
+    if draw(st.integers(0, 2)) == 0:
+        case = draw(_exc_cases())
+        case.pop("j", None)
+    else:
+        spec = draw(gen.record_specs(min_n=4, max_n=2000, kinds=KINDS, allow_int=["list", "view", "readonly"]))
+        case = {"rec": spec}
+        if draw(st.integers(0, 2)) == 0:
+            case["offset"] = draw(st.sampled_from([-1.5, -0.75, -0.5, -0.25, -0.125, 0.125, 0.25, 0.5, 0.75, 1.5]))
+        if draw(st.integers(0, 3)) == 0:
+            case["levels"] = draw(st.integers(2, 12))
+    if draw(st.booleans()):
+        case["xmag"] = draw(st.integers(-665, -532))      # largest |value| 6.5e-201 .. 1.4e-160
+    else:
+        case["xmag"] = draw(st.integers(500, 1015))       # largest |value| 3.3e150 .. 3.5e305
+    case["tolf"] = draw(st.sampled_from([0.3, 1.0, 1.5]))
+    case["tolk"] = draw(st.integers(0, 4000))
+    return case
+
+
+@clause(CLAUSES, "extreme-magnitudes", _extreme_cases(), quick=300, thorough=1500,
+        rule="the series of clause random (records n <= 2000 with optional offset / coarse grid, and structured excursions) rescaled by an exact "
+             "power of two so that the largest |value| is 2^-665..2^-532 (6.5e-201 .. 1.4e-160) or 2^500..2^1015 (3e150 .. 3.5e305), WITHOUT the "
+             "1e-100 flush of the other clauses; tol = f*|a sample| with f in {0.3, 1, 1.5}; non-trivial = some excursion's largest |value| is "
+             "not at its first reported peak",
+        oracle="as clauses random and tol: reference model for the crossings (exact), statement predicates + canonical reference for the switched "
+               "peaks, subsequence relation for tol > 0; the references compare samples and never multiply, so they have no range precondition",
+        require={"tiny": 0.3, "huge": 0.3}, min_nontrivial=0.15)
+def extreme_magnitudes(case, ctx):
+    if "exc" in case:
+        v = []
+        for sg, mags in case["exc"]:
+            v.extend([float(sg) * float(m) for m in mags])
+        a = np.array(v, dtype=float)
+        if np.any(a != 0):
+            a = np.ldexp(a, int(case["xmag"]) - int(math.ceil(math.log2(float(np.max(np.abs(a)))))))
+        arg = a.copy()
+    else:
+        a, arg = series(case)
+    ctx.cls("tiny" if case["xmag"] < 0 else "huge")
+    _classify(ctx, case, a)
+    _check_crossings(ctx, a, arg, default_too=True)
+    if not np.any(a != 0):
+        return
+    _check_switched(ctx, a, arg)
+    nz = [abs(x) for x in a.tolist() if x != 0]
+    t = float(case["tolf"]) * nz[case["tolk"] % len(nz)]
+    if np.isfinite(t) and t > 0:
+        _check_tol(ctx, a, arg, t)
